@@ -782,13 +782,23 @@ pub fn main(args: &Args) -> ! {
     muts.push(InjKind::Extend { n: 16 });
     let mut inj_cases = vec![];
     let mut baselines = BTreeMap::new();
-    for cfg in ["default", "retry"] {
+    let inj_cfgs: &[&'static str] = if thorough { &["default", "retry", "cid0", "cid20"] } else { &["default", "retry"] };
+    for &cfg in inj_cfgs {
         let b = run_inj(base, &InjCase { cfg, wl: Wl::W1, after: 0, kind: InjKind::None });
         baselines.insert(cfg, (b.events, b.conn_emit.clone()));
         let n = run_dup(base, &DupCase { cfg, wl: Wl::W1, script: vec![], sname: "none", dups: vec![] }).0;
         for after in 0..n.min(if thorough { 60 } else { 30 }) {
             for m in &muts {
                 inj_cases.push(InjCase { cfg, wl: Wl::W1, after, kind: m.clone() });
+            }
+            // thorough: every bit of every byte of the handshake datagrams (coalesced packets put
+            // header fields at many offsets); positions past the end are reported as not injected
+            if thorough && after < 14 && (cfg == "default" || cfg == "retry") {
+                for pos in 32..1452i32 {
+                    for &bit in bits {
+                        inj_cases.push(InjCase { cfg, wl: Wl::W1, after, kind: InjKind::Flip { pos, mask: bit } });
+                    }
+                }
             }
         }
     }
